@@ -165,6 +165,19 @@ def battery_ops():
     ch = {"range": {"start": {"line": 0, "character": 0}, "end": {"line": 0, "character": 0}}, "text": "! c\n"}
     ops.append(gen.did_change(main, [ch]))
     ops.append(gen.req(rid(), "textDocument/documentSymbol", {"textDocument": {"uri": gen.uri(main)}}))
+    # options must keep their effect after re-parses (values snapshotted at start-up must not return)
+    for p in (f"{ROOT}/pp.F90", f"{ROOT}/low.f90", f"{ROOT}/hh.h"):
+        ops.append(gen.did_change(p, [dict(ch)]))
+        ops.append(gen.req(rid(), "textDocument/documentSymbol", {"textDocument": {"uri": gen.uri(p)}}))
+    late = f"{ROOT}/late_open.F90"
+    ops.append(gen.env_write(late, "module late_mod\n#ifdef FOO\n  integer :: late_foo\n#endif\n#ifdef BAR\n"
+                                   "  integer :: late_bar\n#endif\n#if BAZ == 2\n  integer :: late_baz\n#endif\n"
+                                   "end module late_mod\n"))
+    ops.append(gen.did_open(late, ""))
+    ops.append(gen.req(rid(), "textDocument/documentSymbol", {"textDocument": {"uri": gen.uri(late)}}))
+    ops.append(gen.did_save(f"{ROOT}/pp.F90"))
+    ops.append(gen.req(rid(), "workspace/symbol", {"query": ""}))
+    ops.append(gen.positional(rid(), "textDocument/hover", main, 10, 47))
     ops += [gen.req(rid(), "shutdown"), gen.note("exit")]
     return ops
 
@@ -202,7 +215,8 @@ def relation_table(tier):
     valid = json.dumps({"nthreads": 3, "hover_language": "ff", "pp_defs": {"FOO": ""}, "excl_paths": ["sub"]})
     base_cli = [["--hover_language", "clilang"], ["--pp_defs", '{"BAR": "1"}', "--pp_suffixes", ".f90"]]
     for cli in base_cli:
-        for fault in ["named-missing", "vanish", "eacces", "eio-read", "directory", "named-directory",
+        for fault in ["named-missing", "vanish", "eacces", "eio-read", "named-eacces-other-present",
+                      "named-vanish-other-present", "named-torn-other-present", "directory", "named-directory",
                       "empty", "top-list", "top-int", "top-str", "top-null", "top-bool", "binary"]:
             tab.append(("R4", {"cli": cli, "fault": fault, "text": valid}))
         cuts = range(1, len(valid)) if tier == "thorough" else range(1, len(valid), 3)
@@ -279,6 +293,28 @@ def gen_case(g):
             B["tree"].pop(f"{ROOT}/{cfgname}")
             B["tree"][f"{ROOT}/{cfgname}.bak"] = text
             A["tree"][f"{ROOT}/{cfgname}.bak"] = text
+        elif f in ("named-eacces-other-present", "named-vanish-other-present", "named-torn-other-present"):
+            # the file asked for with -c is faulty while another, valid, default-named file exists:
+            # the options must stay at their command-line values, not take those of the other file
+            other = json.dumps({"incremental_sync": True, "enable_code_actions": True, "nthreads": 5,
+                                "hover_language": "otherfile", "excl_paths": ["other"]})
+            mine = text if f != "named-torn-other-present" else text[: len(text) // 2]
+            flt = []
+            if f == "named-eacces-other-present":
+                flt = [{"op": 0, "seam": "open", "nth": 0, "kind": "eacces"}]
+            elif f == "named-vanish-other-present":
+                flt = [{"op": 0, "seam": "open", "nth": 0, "kind": "race",
+                        "env": [gen.env_delete(f"{ROOT}/myconf.json")]}]
+            A = bringup(cli + ["-c", "myconf.json"], mine, "myconf.json", faults=flt,
+                        extra_tree={f"{ROOT}/.fortls.json": other})
+            B = bringup(cli, extra_tree={f"{ROOT}/myconf.json.bak": mine, f"{ROOT}/.fortls.json.bak": other})
+            if f != "named-vanish-other-present":
+                A["tree"][f"{ROOT}/myconf.json.bak"] = mine
+            else:
+                A["tree"][f"{ROOT}/myconf.json.bak"] = mine
+                B["tree"].pop(f"{ROOT}/myconf.json.bak")
+                B["tree"][f"{ROOT}/myconf.json.bak"] = mine
+            A["tree"][f"{ROOT}/.fortls.json.bak"] = other
         elif f == "directory":
             A = bringup(cli, extra_tree={f"{ROOT}/{cfgname}/": ""})
             B = bringup(cli, extra_tree={f"{ROOT}/{cfgname}x/": ""})
@@ -315,23 +351,38 @@ def exec_case(case, run_fn):
             summ["violations"] = list(ra.get("violations", [])) + list(rb.get("violations", []))
             return summ
     ea, eb = ra.get("effects", []), rb.get("effects", [])
+    def show_msgs(eff):
+        return [n for e in eff if isinstance(e[1], dict) for n in e[1].get("notifications", [])
+                if n.get("method") == "window/showMessage"]
+
+    def without_msgs(eff):
+        out = []
+        for lab, val in eff:
+            if isinstance(val, dict) and "notifications" in val:
+                val = dict(val, notifications=[n for n in val["notifications"]
+                                               if n.get("method") != "window/showMessage"])
+            out.append([lab, val])
+        return out
+
     ia = next((e for e in ea if e[0] == "initialize"), None)
+    ia_resp = (ia[1].get("response") or {}) if ia else {}
     if rel == "R0":
         summ["visible"] = [spec["opt"], first_diff(ea, eb) is not None]
     elif rel == "R4":
-        msgs_a = [e for e in ea if e[0].endswith("window/showMessage")]
-        msgs_b = [e for e in eb if e[0].endswith("window/showMessage")]
-        if ia is None or (isinstance(ia[1], dict) and "error" in ia[1]):
+        msgs_a = show_msgs(ea)
+        msgs_b = show_msgs(eb)
+        if ia is None or "error" in ia_resp or "result" not in ia_resp:
+            esite = (ia_resp.get("error") or {}).get("site", "?")
             viol.append({"prop": "C19", "clause": "faulty-config:initialize-failed",
-                         "site": f"{what}: {(ia[1]['error'].get('site') if ia else '?')}",
+                         "site": f"{what}: {esite}",
                          "detail": f"{spec} -> {str(ia)[:400]}", "op": 0,
-                         "coarse": f"faulty-config:initialize-failed:{(ia[1]['error'].get('site') if ia else '?')}"})
+                         "coarse": f"faulty-config:initialize-failed:{esite}"})
         else:
             if case["expect_message"] and len(msgs_a) <= len(msgs_b):
                 viol.append({"prop": "C19", "clause": "faulty-config:no-message", "site": what,
                              "detail": f"{spec}: no window/showMessage beyond the baseline's {msgs_b}", "op": 0})
-            ea2 = [e for e in ea if not e[0].endswith("window/showMessage")]
-            eb2 = [e for e in eb if not e[0].endswith("window/showMessage")]
+            ea2 = without_msgs(ea)
+            eb2 = without_msgs(eb)
             d = first_diff(ea2, eb2)
             if d is not None:
                 viol.append({"prop": "C19", "clause": "faulty-config:options-changed",
